@@ -147,6 +147,7 @@ func c16(c *an.Check) {
 	openCall := unlockGates(c, unlock)
 	seenSetScope(c, unlock)
 	grantPlaintextNonNil(c)
+	decryptInputUntouched(c)
 	// what is returned is what Open authenticated; Recover gets (threshold, collected)
 	c.EachReturn("PROVENANCE", "envelope.UnlockEnvelope returns the AEAD plaintext", unlock, "payload = Open(...)", func(s *an.State, ret *ssa.Return) string {
 		v := s.RetVal(ret, 0)
